@@ -2,13 +2,13 @@
 import colorsys
 from opt_common import css_read, _named
 
-OPAQUE_KINDS = ["hex6", "HEX6", "hex3", "barehex", "rgbfn", "rgbfn_ws", "hsl", "named", "tuple", "list"]
-TRANSLUCENT_KINDS = ["rgba", "hsla", "rgba_tuple"]
+OPAQUE_KINDS = ["hex6", "HEX6", "hex3", "barehex", "rgbfn", "rgbfn_ws", "hsl", "hsl_uc", "named", "tuple", "list"]
+TRANSLUCENT_KINDS = ["rgba", "hsla", "rgba_tuple", "rgba_uc", "hsla_uc"]
 
 # the documented output format for each input spelling kind
 OUT_FORMAT = {"hex6": "hex", "HEX6": "hex", "hex3": "hex", "barehex": "hex", "rgbfn": "rgb", "rgbfn_ws": "rgb",
               "hsl": "hsl", "named": "hex", "tuple": "tuple", "list": "tuple",
-              "rgba": "hex", "hsla": "hex", "rgba_tuple": "hex"}
+              "rgba": "hex", "hsla": "hex", "rgba_tuple": "hex", "hsl_uc": "hsl", "rgba_uc": "hex", "hsla_uc": "hex"}
 
 
 def hsl_string(rgb):
@@ -22,9 +22,21 @@ def hsl_string(rgb):
     return None
 
 
+def _fn_case(rng, s):
+    """function name in upper or mixed case (CSS function names are case-insensitive)"""
+    i = s.index("(")
+    name = s[:i]
+    return rng.choice([name.upper(), name.capitalize(), name[0] + name[1:].upper()]) + s[i:]
+
+
 def spell(rng, rgb, kind):
     """returns (value, kind_used) — falls back to hex6 when the kind cannot denote this colour"""
     r, g, b = rgb
+    if kind in ("hsl_uc", "rgba_uc", "hsla_uc"):
+        v, used = spell(rng, rgb, kind[:-3])
+        if used == kind[:-3] and isinstance(v, str):
+            return _fn_case(rng, v), kind
+        return v, used
     if kind == "hex3" and all(x % 17 == 0 for x in rgb):
         return "#%x%x%x" % (r // 17, g // 17, b // 17), kind
     if kind == "HEX6":
